@@ -161,10 +161,6 @@ func c08LoadState(r *Report) {
 			problems = append(problems, "loadState uses CompareAndSwap (raise-only) on the clock")
 		}
 	}
-	for _, c := range CallsDeep(ls, Fn("network/dag", "state", "raiseLamportClock")) {
-		_ = c
-		problems = append(problems, "loadState raises instead of overwriting the clock")
-	}
 	r.Sites += stores + reads
 	if stores != 1 {
 		problems = append(problems, fmt.Sprintf("%d atomic Store calls on the clock (expected 1)", stores))
